@@ -114,6 +114,9 @@ class GhostConn(object):
         Ctx.current.effect("commit")
         self.commits += 1
 
+    def rollback(self):
+        Ctx.current.effect("rollback")
+
     def result_rows(self, cur):
         if self.result_for is None or cur.last is None:
             return []
